@@ -214,15 +214,22 @@ def run(ctx):
     # anisotropic: the law is given as a stiffness; take the orthotropic one in material axes, in both notations
     ortho = build("Orthotropic", PARAMS["Orthotropic"][0], I3, (1.0, 1.0), 3, False)
     C_km_mat = np.asarray(ortho.C, dtype=float)
-    S_eng_mat = km_to_eng(np.asarray(ortho.S, dtype=float))
-    C_voigt_mat = np.linalg.inv(S_eng_mat)
+    S_eng_mat0 = km_to_eng(np.asarray(ortho.S, dtype=float))
+    C_voigt_mat = np.linalg.inv(S_eng_mat0)
+    # the same kind of law written with whole numbers in an integer array (Voigt notation): the type of the array is not part of the law
+    # C = L L^T with L unit lower triangular: whole numbers, positive definite, every block coupled (normal-shear too), integer inverse
+    L_int = np.eye(6, dtype=int)
+    for (i, j) in ((1, 0), (2, 1), (3, 0), (4, 1), (5, 2), (5, 3)):
+        L_int[i, j] = 1
+    C_int = L_int @ L_int.T
+    S_int = np.linalg.inv(C_int.astype(float))
     for fname, P in FRAMES.items():
-        for voigt in (True, False):
-            ident = f"Anisotropic/{fname}/3D/{'voigt' if voigt else 'kelvin-mandel'}"
+        for voigt, Cgiven, S_eng_mat, vname in ((True, C_voigt_mat, S_eng_mat0, "voigt"), (False, C_km_mat, S_eng_mat0, "kelvin-mandel"), (True, C_int, S_int, "voigt-integer-array")):
+            ident = f"Anisotropic/{fname}/3D/{vname}"
             a1 = np.array([float(P[i][0]) for i in range(3)]) * 2.0
             a2 = np.array([float(P[i][1]) for i in range(3)])
             try:
-                m = Models.Elastic.Anisotropic(3, C_voigt_mat if voigt else C_km_mat, voigt, a1, a2)
+                m = Models.Elastic.Anisotropic(3, Cgiven.copy(), voigt, a1, a2)
                 S = np.asarray(m.S, dtype=float)
             except Exception as ex:
                 ctx.violation(f"build-raises/Anisotropic/{fname}", f"{ident}: {type(ex).__name__}: {ex}", {"id": ident})
